@@ -273,3 +273,19 @@ CHECKS["C03"] = {
     "mandatory_labels": {"all": ["forgery/stopped-by-signature-check-only", "forgery/replayed-signature", "store/account", "store/multimember",
                                  "types/EventTypeGroupMemberDeviceAdded", "types/EventTypeMultiMemberGroupInitialMemberAnnounced", "types/EventTypeAccountVerifiedCredentialRegistered"]},
 }
+
+CHECKS["C12"] = {
+    "level": "exploration",
+    "level_text": ("generated invitations with the full mutation catalogue (every single-bit flip of identifier, secret and signature, field removal/truncation/extension/substitution, "
+                   "group-type substitution, other group kinds) against the account store's join, the keys a joined group is entered with, and replication descriptors of "
+                   "generated groups of all types tried against every metadata event type and message envelopes plus address/link-key equality"),
+    "level_note": "trusts Ed25519 and secretbox; the descriptor 'cannot read' half tries envelopes produced by the harness' own sealing code and by the real secret store",
+    "technique": "property-based testing (rapid) with an enumerated mutation catalogue and differential (descriptor vs full group) oracles",
+    "rule": ("case = one invitation mutant / one joined group / one descriptor; non-trivial = mutant that still has a 32-byte key and a 64-byte signature (only the signature or type check rejects it), "
+             "every identity and descriptor case; distinct = (mutation label, key) / group key"),
+    "assumptions": ["bit flips of the serialized invitation that leave identifier, secret, signature and type untouched are not alterations in the sense of the statement"],
+    "units": [
+        {"pkg": ".", "run": "^TestVerif_C12_", Q: {"timeout": 900}, T: {"timeout": 3400, "shards": 12}},
+    ],
+    "mandatory_labels": {"all": ["mutant/rejected-by-signature-or-type-only", "honest-join", "identity", "descriptor/GroupTypeAccount", "descriptor/GroupTypeContact", "descriptor/GroupTypeMultiMember"]},
+}
